@@ -460,6 +460,10 @@ class CodeGen:
                     yield asm.Label(handler)
                     yield asm.Metadata('stop block')
                     self.effective_defeat = prev_defeat
+                    # Defeat has been caught, so it must stop being
+                    # virtualized: later defeat functions read the
+                    # defeat word and would jump back to this handler.
+                    yield asm.Mov(self.defeat, prev_defeat)
                     yield asm.Mov(self.fp, asm.State(self.try_fp))
                     yield from ap_bubble.value.to(self.ap)
                     yield from self.pop(ap_bubble)
